@@ -232,6 +232,9 @@ func GenFlowScenario(r *rand.Rand, o GenOpts) *Scenario {
 func (sc *Scenario) MaxNesting() int {
 	var d func(id int, seen map[int]bool) int
 	d = func(id int, seen map[int]bool) int {
+		if id < 0 {
+			return 0
+		}
 		s := &sc.Nodes[id]
 		if s.Kind != KFlow || seen[id] {
 			return 0
